@@ -887,16 +887,9 @@ def _canon_anon(ts, nv):
     return _anon_shown(_canon(ts, nv))
 
 def _compare_prog(case, io, mo):
-    r = _compare_prog_strict(case, io, mo, _canon)
-    if r is not None and 'findall' in _src(case):
-        # Known limit of the cell naming of Sem/Machine.v (and hence of the frame machine, which is proved equal
-        # to it): a findall result that contains an unbound variable CREATED INSIDE THE GOAL.  Such a variable is
-        # one object for all answers below the choice point it was created before, and different objects
-        # otherwise; the model's counter naming cannot tell (it renames them apart per answer).  For programs
-        # with findall a disagreement that disappears when variable identity is ignored is not reported.
-        if _compare_prog_strict(case, io, mo, _canon_anon) is None:
-            return None
-    return r
+    # findall/3 collects copies with new variables (engine since the repair D27, Sem/Machine.collect with lo = 0), so the
+    # identity of every variable in an answer is determined by the model: no tolerance for programs with findall
+    return _compare_prog_strict(case, io, mo, _canon)
 
 def _compare_sched(case, io, mo):
     if mo is None or not isinstance(io, dict):
